@@ -46,12 +46,12 @@ structure PCtx where
   deriving Repr, DecidableEq
 
 /-- a context, or the fault token an extractor produced on the way (faults are threaded, never defaulted) -/
-abbrev RCtx := Res PCtx
+abbrev RCtx := IxRes PCtx
 
 def traceparentName : Bytes := [116, 114, 97, 99, 101, 112, 97, 114, 101, 110, 116]
 def tracestateName : Bytes := [116, 114, 97, 99, 101, 115, 116, 97, 116, 101]
 
-def withSpan (r : RCtx) (f : PCtx → Res (Option TraceContext.SpanCtx)) : RCtx :=
+def withSpan (r : RCtx) (f : PCtx → IxRes (Option TraceContext.SpanCtx)) : RCtx :=
   r.bind fun ctx => (f ctx).bind fun o =>
     match o with
     | none => .ok ctx
